@@ -101,6 +101,8 @@ type interpreter struct {
 	goroutines         int32                  // atomically updated
 	lastInstr          ssa.Instruction
 	lastFn             *ssa.Function
+	unwinding          bool
+	panicStack         string
 	inited             map[*ssa.Package]bool
 	skipInit           func(pkg string) bool
 	depth              int
@@ -649,6 +651,10 @@ func runFrame(fr *frame) {
 			return // let interpreter crash
 		}
 		r := recover()
+		if !fr.i.unwinding {
+			fr.i.unwinding = true
+			fr.i.panicStack = targetStack(fr)
+		}
 		if isEnginePanic(r) {
 			panic(r)
 		}
@@ -680,6 +686,7 @@ func runFrame(fr *frame) {
 			}
 			fr.i.lastInstr = instr
 			fr.i.lastFn = fr.fn
+			fr.i.unwinding = false
 			if X != nil {
 				X.steps++
 				if X.cfg != nil && X.cfg.maxSteps > 0 && X.steps > X.cfg.maxSteps {
